@@ -6,6 +6,7 @@ SPEC = {
         "AM.Calendar.civil_unique", "AM.Calendar.toDays_injective",
         "AM.Calendar.days_in_month_correct", "AM.Calendar.days_in_month_leap_rule",
         "AM.Calendar.daysBeforeYear_step", "AM.Calendar.next_day_correct",
+        "AM.Calendar.toDays_strictMono", "AM.Calendar.toDays_lt_iff", "AM.Calendar.civilFromDays_strictMono",
         "AM.Calendar.weekday_correct", "AM.Calendar.weekday_range", "AM.Calendar.weekday_epoch", "AM.Calendar.epoch_anchor",
         # ContainsTime
         "AM.TimeInterval.clamp_is_intersection", "AM.TimeInterval.clamp_alone_is_wrong", "AM.TimeInterval.clamp_spec",
